@@ -118,6 +118,81 @@ type conn struct {
 	class string
 }
 
+// runRepoint: the configured lookup changes its answer between connections (a name is re-pointed to another
+// endpoint, then refused); every connection is delivered according to what the lookup returns when it dials.
+func runRepoint(op string, rep *hx.Report) string {
+	mode := "legacy"
+	for _, w := range strings.Fields(op) {
+		if strings.HasPrefix(w, "mode=") {
+			mode = w[5:]
+		}
+	}
+	var mu sync.Mutex
+	target := "epa"
+	lookup := func(domain string) (*sniproxy.Dest, error) {
+		mu.Lock()
+		defer mu.Unlock()
+		if domain != "x.test" || target == "" {
+			return nil, fmt.Errorf("refused")
+		}
+		return &sniproxy.Dest{Name: target}, nil
+	}
+	rig, err := snix.NewRig(mode, lookup, nil)
+	if err != nil {
+		return "skip " + err.Error()
+	}
+	defer rig.Close()
+	backs := map[string]*backend{}
+	for _, n := range []string{"a", "b"} {
+		ep, err := rig.Endpoint(n)
+		if err != nil {
+			return "skip " + err.Error()
+		}
+		b := &backend{name: n}
+		backs[n] = b
+		go func() {
+			for {
+				c, err := ep.Accept()
+				if err != nil {
+					return
+				}
+				go b.serve(c)
+			}
+		}()
+	}
+	dial := func(tag int) string {
+		c, err := net.Dial("tcp", rig.Lis.Addr().String())
+		if err != nil {
+			return "skip"
+		}
+		defer c.Close()
+		c.Write(helloFor("x.test"))
+		fmt.Fprintf(c, "TAG:%d\n", tag)
+		c.SetReadDeadline(time.Now().Add(10 * time.Second))
+		line, err := bufio.NewReader(c).ReadString('\n')
+		if err != nil {
+			if ne, ok := err.(net.Error); ok && ne.Timeout() {
+				return "timeout"
+			}
+			return "closed"
+		}
+		return strings.TrimSpace(line)
+	}
+	steps := []struct {
+		target, want string
+	}{{"epa", "EP:a:1"}, {"epa", "EP:a:2"}, {"epb", "EP:b:3"}, {"epa", "EP:a:4"}, {"", "closed"}, {"epb", "EP:b:6"}}
+	for i, st := range steps {
+		mu.Lock()
+		target = st.target
+		mu.Unlock()
+		if got := dial(i + 1); got != st.want && got != "skip" {
+			rep.Fail("stale-lookup-result:"+mode, fmt.Sprintf("connection %d for x.test: the lookup answered %q when it dialled, the connection ended as %q (expected %q)", i+1, st.target, got, st.want), []string{op})
+			return "failed"
+		}
+	}
+	return "ok"
+}
+
 // runLong: two connections for the same endpoint over one multiplexed tunnel; A stays idle (a read is
 // outstanding for it) while B receives `calls` single-byte writes, each a call of its own on the shared
 // transport; then the application writes on A: those bytes must reach A's client and nobody else.
@@ -541,6 +616,9 @@ func main() {
 			ops = append(ops, fmt.Sprintf("e2e mode=%s seed=%d conns=%d", []string{"legacy", "siding", "siding-addr"}[i%3], r.U64()%100000, n))
 		}
 		ops = append(ops, "long calls=70000")
+		for _, mode := range []string{"legacy", "siding", "siding-addr"} {
+			ops = append(ops, "repoint mode="+mode)
+		}
 		nf := 2
 		if f.Thorough() {
 			nf = 12
@@ -588,6 +666,10 @@ func main() {
 	failedMode := map[string]bool{} // once a mode has shown a violation do not spend more time-outs on it
 	for _, op := range ops {
 		switch {
+		case strings.HasPrefix(op, "repoint "):
+			rep.Case(op, true)
+			rep.Count("repoint")
+			runRepoint(op, rep)
 		case strings.HasPrefix(op, "long "):
 			rep.Case(op, true)
 			rep.Count("long")
